@@ -1366,7 +1366,11 @@ class Exec(Interp):
                 if name == 'saturating_mul':
                     if ha * hb > th:
                         self.__dict__.setdefault('saturations', []).append((strip_inst(fr.fn), name, ty, '%s * %s' % (self.describe(st, A[0]), self.describe(st, A[1])), fr.body.file, line))
-                    return [(st, self.mk_int(st, ty, min(la * lb, th), min(ha * hb, th)))]
+                    r = self.mk_int(st, ty, min(la * lb, th), min(ha * hb, th))
+                    if ha * hb > th:
+                        # like a saturated sum: a product clamped at the capacity of its type is a width-dependent number
+                        self.__dict__.setdefault('sat_vids', {})[r[2]] = (th, 'saturating_mul(%s, %s)' % (self.describe(st, A[0]), self.describe(st, A[1])))
+                    return [(st, r)]
                 if name in ('checked_sub', 'checked_add', 'checked_mul'):
                     outs = []
                     if name == 'checked_sub':
